@@ -8,6 +8,8 @@ SRC = '/tmp/seeded-out'
 DST = '/verif/seeded'
 
 def parse_detect(path, only_after=None):
+    """Sections are delimited by the runner's own '=== mutant <seed>/<patch> check <ID>' lines (two
+    runners shared one log, so the '#####' headers written by the driver script may interleave)."""
     res = {}
     if not os.path.exists(path):
         return res
@@ -16,16 +18,27 @@ def parse_detect(path, only_after=None):
         txt = txt[txt.index(only_after):]
     cur = None
     for line in txt.splitlines():
-        m = re.match(r'^##### (C\d+-\d+)', line)
+        m = re.match(r'^=== mutant (C\d+-\d+)/(\S+) check (C\d+)', line)
         if m:
             cur = m.group(1)
-            res[cur] = {'lines': [], 'exit': None, 'patch': (re.search(r'\((.*?)\)', line) or [None, 'patch.diff'])[1]}
+            if m.group(3) != cur.split('-')[0]:
+                cur = cur + ':' + m.group(3)
+            res[cur] = {'lines': [], 'exit': None, 'patch': m.group(2)}
+            continue
+        m = re.match(r'^##### (C\d+-\d+)', line)
+        if m:
+            hdr = m.group(1)
+            if 'patch does not apply' in line or 'no patch' in line:
+                res.setdefault(hdr, {'lines': ['patch does not apply'], 'exit': 2, 'patch': 'patch.diff'})
+            cur = None
             continue
         if cur is None:
+            if line.startswith('patch does') and 'hdr' in dir():
+                res.setdefault(hdr, {'lines': ['patch does not apply'], 'exit': 2, 'patch': 'patch.diff'})
             continue
         if line.startswith('exit='):
-            res[cur]['exit'] = int(line.split('=')[1])
-        elif line.startswith(('VIOLATION', 'OK', 'MACHINERY', 'patch does', 'no patch')):
+            res[cur]['exit'] = int(line.split('=')[1]); cur = None
+        elif line.startswith(('VIOLATION', 'OK', 'MACHINERY')):
             res[cur]['lines'].append(line)
     return res
 
@@ -56,6 +69,7 @@ def parse_confirm(path):
 
 det = parse_detect('/tmp/seed-detect.out', only_after='##### DONE C07-2')
 det.update(parse_detect('/tmp/seed-detect2.out'))
+det.update(parse_detect('/tmp/seed-detect3.out'))
 conf, suites = parse_confirm('/tmp/confirm-union.txt')
 
 suite_ok = {}
@@ -115,6 +129,12 @@ for name in sorted(os.listdir(SRC)):
         json.dump(m2, open(os.path.join(out, 'meta.json'), 'w'), indent=1, ensure_ascii=False)
     summ = (meta.get('summary') or '').replace('|', '/').replace('\n', ' ')[:160]
     need = (meta.get('needs') or '').replace('|', '/').replace('\n', ' ')[:140]
+    cross = [k.split(':')[1] for k, v in det.items() if k.startswith(name + ':') and v['exit'] == 1]
+    if cross and confirmed:
+        m3 = json.load(open(os.path.join(DST, name, 'meta.json'))); m3['detection']['also_caught_by'] = cross
+        json.dump(m3, open(os.path.join(DST, name, 'meta.json'), 'w'), indent=1, ensure_ascii=False)
+    if cross:
+        keys = keys + ['(also caught by ' + ','.join(cross) + ')']
     rows.append((name, status, 'caught' if caught else ('NOT caught' if dd and dd['exit'] == 0 else 'not run' if not dd else 'run error'), ', '.join(k.split('/', 1)[-1] for k in keys[:3]), summ, need))
 
 with open(os.path.join(DST, 'INDEX.md'), 'w') as f:
